@@ -34,6 +34,11 @@ BAD = [
     '<svg><rect wh="2"></svg>',
     '<svg><loop while="1"><rect wh="1"/></loop></svg>',
     '<svg><rect wh="{{1 +}}"/></svg>',
+    # nothing comes before the first element: "^" has nothing to stand for - whatever the
+    # thread transformed before
+    '<svg><rect xy="^|h 2" wh="1"/></svg>',
+    '<rect cxy="^@tr" wh="2"/>',
+    '<svg><reuse href="^" x="3"/></svg>',
 ]
 # the same bytes must mean the same to every front-end: line endings, declarations, BOM-less
 # UTF-8, entity references, real SVG, fragments
